@@ -44,7 +44,7 @@ def run(ctx):
         txt = (ctx.work / "GenPkg.lean").read_text()
         ncls = len(re.findall(r"^def c\d+ : Cls", txt, re.M))
         return inst_fn(ncls)
-    convprop.run(ctx, "C14", ops_fn=ops_fn, inst_fn=inst, theorems=["C14_supported"])
+    convprop.run(ctx, "C14", ops_fn=ops_fn, inst_fn=inst, theorems=["C14_supported"], total=True)
 
 
 def replay(path):
